@@ -19,7 +19,7 @@
 (* Res predicts with a minimal set of named deviations (known findings)    *)
 (* enabled; anything else stays a failure.                                 *)
 (***************************************************************************)
-EXTENDS Resolve, Known, Json, IOUtils
+EXTENDS Resolve, AvroBinary, Known, Json, IOUtils
 
 Rec == ndJsonDeserialize(IOEnv.TRACE)
 VARIABLE l
@@ -28,7 +28,6 @@ KnownC08 == AllDevs \cap KnownIds
 Xs == {"dr", "cr", "vr"}
 XName(x) == CASE x = "dr" -> "datum" [] x = "cr" -> "container" [] OTHER -> "value"
 
-Out(o) == IF o.ok THEN o.v ELSE Err
 
 (* the smallest sets of enabled deviations under which `pred` holds: singletons, then pairs, then all *)
 Explain(pred(_)) ==
@@ -38,24 +37,47 @@ Explain(pred(_)) ==
        IF two # {} THEN CHOOSE D \in two : TRUE
        ELSE IF KnownC08 # {} /\ pred(KnownC08) THEN KnownC08 ELSE {}
 
+(* The container Reader hands the READER schema to the block decoder as "schemata": references inside the   *)
+(* writer's schema are then decoded with the READER's definition of that name (inline definitions keep the *)
+(* writer's).  The deviant outcome is computed exactly: decode the written bytes with that hybrid, resolve.  *)
+DevContainer == "C08-container-decodes-refs-with-reader-defs"
+\* a name the reader does not define is an unresolved reference there: modelled by a type no input can satisfy
+Unresolvable(n) == [k |-> "fixed", name |-> n, size |-> 1000000]
+Hybrid(ew, er) == [n \in DOMAIN ew |-> IF n \in DOMAIN er THEN er[n] ELSE Unresolvable(n)]
+ContainerDeviant(e, c, ew, er, D) ==
+  LET eh == Hybrid(ew, er)
+      pr == Parse(Enc(c.v, e.W, ew), 1, e.W, eh) IN
+  IF ~pr.ok THEN Err ELSE Res(e.W, e.R, pr.v, eh, er, D, StdPolicy)
+
 JudgeCase(e, c, ew, er) ==
   IF ~Conforms(c.v, e.W, ew) THEN [fail |-> {"TOOL:value-not-conforming"}, known |-> {}, drift |-> {}]
   ELSE IF ~c.enc_ok THEN [fail |-> {}, known |-> {}, drift |-> {"writer-refused-conforming-value"}]
   ELSE
-  LET std == Res(e.W, e.R, c.v, ew, er, {}, StdPolicy)
-      all == {Res(e.W, e.R, c.v, ew, er, {}, p) : p \in Policies}
-      Clean(out) == REq(out, std) \/ \E x \in all : REq(out, x)
-      \* explanation of an entry point's result by deviations
-      ResultBy(out) == IF Clean(out) THEN {} ELSE Explain(LAMBDA D : REq(out, Res(e.W, e.R, c.v, ew, er, D, StdPolicy)))
+  LET Out(o) == IF o.ok THEN c.terms[o.ti] ELSE Err          \* result terms are stored once each in c.terms
+      Same(a, b) == a.ok = b.ok /\ a.ti = b.ti                 \* the very same recorded term (or both errors)
+      std == Res(e.W, e.R, c.v, ew, er, {}, StdPolicy)
+      Clean(out) == REq(out, std) \/ \E p \in Policies \ {StdPolicy} : REq(out, Res(e.W, e.R, c.v, ew, er, {}, p))
+      \* explanation of an entry point's result by deviations ({} = none found)
+      ResultBy(x, out) ==
+        LET plain == Explain(LAMBDA D : REq(out, Res(e.W, e.R, c.v, ew, er, D, StdPolicy))) IN
+        IF plain # {} \/ x # "cr" \/ DevContainer \notin KnownIds \/ DOMAIN ew = {} THEN plain
+        ELSE IF REq(out, ContainerDeviant(e, c, ew, er, {})) THEN {DevContainer}
+        ELSE LET more == Explain(LAMBDA D : REq(out, ContainerDeviant(e, c, ew, er, D))) IN
+             IF more = {} THEN {} ELSE more \cup {DevContainer}
+      outDr == Out(c.dr)
+      cleanDr == Clean(outDr)
+      byDr == IF cleanDr THEN {} ELSE ResultBy("dr", outDr)
       PerX(x) ==
         LET o == c[x]  out == Out(o)
-            clean == Clean(out)
-            by == ResultBy(out)
-            again == Out(c[x \o "_again"])
+            asDr == x # "dr" /\ Same(o, c.dr)
+            clean == IF asDr THEN cleanDr ELSE Clean(out)
+            by == IF clean THEN {} ELSE IF asDr /\ byDr # {} THEN byDr ELSE ResultBy(x, out)
+            ag == c[x \o "_again"]
+            again == Out(ag)
             valid == c[x \o "_valid"]
             resFail == ~clean
             valFail == o.ok /\ ~valid
-            idemFail == o.ok /\ ~REq(again, out)
+            idemFail == o.ok /\ ~(Same(ag, o) \/ REq(again, out))
             \* a second resolution that departs from the identity may itself be a named deviation at work
             idemBy == IF ~idemFail THEN {}
                       ELSE IF ~clean THEN by
@@ -68,11 +90,11 @@ JudgeCase(e, c, ew, er) ==
             r1 == Attr(resFail, "C08:result-" \o nm, by)
             r2 == Attr(valFail, "C08:validates-" \o nm, IF clean THEN {} ELSE by)
             r3 == Attr(idemFail, "C08:idempotent-" \o nm, idemBy)
-        IN [fail |-> r1.fail \cup r2.fail \cup r3.fail \cup (IF o.panic \/ c[x \o "_again"].panic THEN {"C08:panic"} ELSE {}),
+        IN [fail |-> r1.fail \cup r2.fail \cup r3.fail \cup (IF o.panic \/ ag.panic THEN {"C08:panic"} ELSE {}),
             known |-> r1.known \cup r2.known \cup r3.known,
             by |-> by]
-      px == [x \in Xs |-> PerX(x)]
-      agree == REq(Out(c.dr), Out(c.cr)) /\ REq(Out(c.dr), Out(c.vr))
+      px == TLCEval([x \in Xs |-> PerX(x)])
+      agree == (Same(c.dr, c.cr) \/ REq(Out(c.dr), Out(c.cr))) /\ (Same(c.dr, c.vr) \/ REq(Out(c.dr), Out(c.vr)))
       allBy == UNION {px[x].by : x \in Xs}
       ag == IF agree THEN [fail |-> {}, known |-> {}]
             ELSE IF allBy = {} THEN [fail |-> {"C08:entry-points-agree"}, known |-> {}]
